@@ -146,12 +146,25 @@ def run(ck):
 
 
 def rule_S(ck):
+    """Structural rules on the macro crate (supplementary to the compile-fail witnesses C14-W: where the code has a shape
+    these rules do not read, they record "not evaluated" instead of a verdict).  They quantify over all functions of
+    tree.rs, not over one named function, so that splitting or merging helpers does not matter."""
     m = ctx.macros(ck)
     if m is None:
         return
-    ex, ps = ctx.summarize(m, INSERT_AT, ck)
-    if ck.anchor("C14-S", INSERT_AT, ex):
-        n_store = n_occ = 0
+    TERR = "microscpi_macros::tree::Error"
+    tree_fns = [b for b in m.facts["bodies"] if b["def"].startswith("microscpi_macros::tree::") and b["kind"] in ("Fn", "AssocFn") and "::{" not in b["def"] and not b.get("trait")]
+    result_fns = {hir.base_path(b["def"]) for b in m.facts["bodies"] if TERR in (b.get("ret") or "")}
+    n_store = n_occ = n_prop = 0
+    keyed = None
+    unsupported = []
+    for b in tree_fns:
+        try:
+            ex, ps = ctx.summarize(m, b["def"], ck)
+        except pathsum.Unsupported as u:
+            unsupported.append("%s: %s" % (b["def"], u))
+            continue
+        name = b["def"].split("::")[-1]
         for i, x in enumerate(ex):
             stores = [e for e in x.effects if e[0] == "store" and e[1][0] == "field" and e[1][2] in ("query", "command")]
             isq = None
@@ -164,93 +177,80 @@ def rule_S(ck):
                 d = ps.decided(pathsum.St(x.conds), slot, SOME)
                 want = "query" if isq else "command"
                 ok = d is False and isq is not None and slot[2] == want and st[2][0] == "ctor" and st[2][1] == SOME
-                ck.judge(ok, "C14-S", "insert_at:store#%d:%s" % (n_store, slot[2]), "slot %s written only where it was None (is_query=%s)" % (slot[2], isq),
+                ck.judge(ok, "C14-S", "%s:store#%d:%s" % (name, n_store, slot[2]), "slot %s written only where it was None (is_query=%s)" % (slot[2], isq),
                          "leaf slot `%s` is written %s (is_query=%s)" % (slot[2], "without a vacancy test" if d is None else "although occupied" if d else "but the kind does not match", isq),
                          data=pathsum.show_exit(x)[:1500])
-            # occupied paths
             for c in x.conds:
-                if c[0] == "is" and c[2] == SOME and c[3] and c[1][0] == "field" and c[1][2] in ("query", "command") and "get_mut" in str(c[1]):
+                if c[0] == "is" and c[2] == SOME and c[3] and c[1][0] == "field" and c[1][2] in ("query", "command") and c[1][1][0] != "param":
                     n_occ += 1
-                    want = ("ctor", ERR, (("ctor", "microscpi_macros::tree::Error::" + ("QueryExists" if c[1][2] == "query" else "CommandExists"), ()),))
+                    want = ("ctor", ERR, (("ctor", TERR + "::" + ("QueryExists" if c[1][2] == "query" else "CommandExists"), ()),))
                     ok = x.kind in ("return", "err") and x.value == want and not stores and (isq == (c[1][2] == "query"))
-                    ck.judge(ok, "C14-S", "insert_at:occupied#%d:%s" % (n_occ, c[1][2]), "occupied %s slot -> %s" % (c[1][2], show_term(want)),
+                    ck.judge(ok, "C14-S", "%s:occupied#%d:%s" % (name, n_occ, c[1][2]), "occupied %s slot -> %s" % (c[1][2], show_term(want)),
                              "occupied `%s` slot does not return the matching error: %s %s" % (c[1][2], x.kind, show_term(x.value)), data=pathsum.show_exit(x)[:1500])
-        ck.floor("C14-S", "leaf-slot stores in insert_at", n_store, 2)
-        ck.floor("C14-S", "occupied-slot paths in insert_at", n_occ, 2)
-        # children keyed by the whole part, recursion on the rest
-        keyed = False
-        for x in ex:
             for e in x.effects:
-                if e[0] == "call" and e[1].endswith("::entry"):
+                if e[0] == "call" and e[1].endswith("::entry") and len(e[2]) == 2:
                     k = e[2][1]
-                    if k[0] == "call" and k[1].endswith("::clone"):
+                    while k[0] == "call" and k[1].split("::")[-1] in ("clone", "to_owned", "to_string", "into") and k[2]:
                         k = k[2][0]
-                    if k[0] == "payload" and k[2] == SOME and k[1][0] == "call" and k[1][1].endswith("::first"):
+                    whole = (k[0] == "payload" and k[2] == SOME and k[1][0] == "call" and k[1][1].split("::")[-1] in ("first", "next", "split_first")) or k[0] == "iter_item" \
+                        or (k[0] == "tproj" and k[1][0] == "payload") or k[0] in ("param", "loopvar", "local")
+                    if not whole:
+                        ck.bad("C14-S", "%s:child-key" % name, "children keyed by %s, not by a whole path part" % show_term(k))
+                        keyed = False
+                    elif keyed is None:
                         keyed = True
-                    else:
-                        ck.bad("C14-S", "insert_at:child-key", "children keyed by %s, not by the whole first part" % show_term(k))
-        ck.judge(keyed, "C14-S", "insert_at:child-key", "children keyed by the whole first path part", "no entry() call keyed by path.first()")
-        # every err exit of the recursion is propagated
-        for i, x in enumerate(ex):
-            rec = [e for e in x.effects if e[0] == "call" and e[1] == INSERT_AT]
-            for r in rec:
-                t = ("call",) + r[1:]
-                d = ps.decided(pathsum.St(x.conds), t, OK)
-                if d is False:
-                    ck.judge(x.kind in ("return", "err") and x.value == ("ctor", ERR, (("payload", t, ERR, 0),)), "C14-S", "insert_at:recursion-error#%d" % i,
-                             "error of the recursive insertion is propagated", "error of the recursive insertion is dropped: %s" % pathsum.show_exit(x)[:300])
-                elif d is None:
-                    ck.bad("C14-S", "insert_at:recursion-result#%d" % i, "result of the recursive insert_at is not inspected")
-    # insert: value is try_for_each over all paths whose closure returns insert_at's result
-    v = m.fn_value(INSERT)
-    if ck.anchor("C14-S", INSERT, v):
-        ck.fn(INSERT)
-        tail = hir.strip(v)
-        ok = False
-        why = "unexpected shape: %s" % hir.show(v)[:200]
-        t = tail
-        if t.get("k") == "Try":
-            t = hir.strip(t["e"])
-        if t.get("k") == "MethodCall" and t["name"] in ("try_for_each",):
-            recv = t["recv"]
-            chain = hir.show(recv)
-            cl = hir.strip(t["args"][0])
-            if cl.get("k") == "Closure":
-                body = hir.strip(cl["body"])
-                if body.get("k") == "Try":
-                    body = None
-                if body is not None and body.get("k") == "MethodCall" and hir.base_path(body.get("callee")) == INSERT_AT:
-                    ok = True
-                else:
-                    why = "closure does not return insert_at's result: %s" % hir.show(cl)[:200]
-            if ok and not (recv.get("k") == "MethodCall" and recv["name"] == "iter" and hir.strip(recv["recv"]).get("k") == "MethodCall"
-                           and hir.strip(recv["recv"])["name"] == "paths"):
-                # allow sorted/deduped local copies of paths(): the iterated collection must derive from paths() without take/skip/first
-                src = hir.show(v)
-                if "paths()" not in src or any(w in src for w in (".take(", ".skip(", ".first()", ".last()", ".next()", ".nth(", ".step_by(", ".filter(")):
-                    ok = False
-                    why = "not every expanded path is inserted: %s" % chain[:200]
-        elif t.get("k") == "Block" or t.get("k") == "For":
-            src = hir.show(v)
-            ok = "paths()" in src and "insert_at" in src and not any(w in src for w in (".take(", ".skip(", ".first()", ".last()", ".nth(", ".ok()", "let _"))
-            why = "loop form: " + src[:200]
-        ck.judge(ok, "C14-S", "insert:all-paths-propagated", "insert = paths().iter().try_for_each(|p| insert_at(0, p, cmd)) (result returned)", why)
-    # interface: result of tree.insert consumed
-    b = m.fn_value(IFACE)
-    if ck.anchor("C14-S", IFACE, b):
-        ck.fn(IFACE)
-        pm = ctx.parent_map(b)
-        n = 0
-        for x in hir.walk(b):
-            if x.get("k") == "MethodCall" and hir.base_path(x.get("callee")) == INSERT:
+            # no tree::Error is dropped on the way up
+            for e in x.effects:
+                if e[0] == "call" and e[1] in result_fns:
+                    t = ("call",) + tuple(e[1:])
+                    d = ps.decided(pathsum.St(x.conds), t, OK)
+                    if d is False:
+                        n_prop += 1
+                        ok = x.kind in ("err", "return") and x.value == ("ctor", ERR, (("payload", t, ERR, 0),))
+                        ck.judge(ok, "C14-S", "%s:error-of-%s#%d" % (name, e[1].split("::")[-1], n_prop), "collision error of %s is propagated" % e[1].split("::")[-1],
+                                 "the collision error returned by %s is dropped: %s" % (e[1].split("::")[-1], pathsum.show_exit(x)[:300]))
+                    elif d is None and not (x.kind in ("return", "err") and x.value == t):
+                        ck.bad("C14-S", "%s:result-of-%s#%d" % (name, e[1].split("::")[-1], i), "the result of %s is not inspected (a collision would be ignored)" % e[1].split("::")[-1],
+                               data=pathsum.show_exit(x)[:600])
+    for u in unsupported:
+        ck.skip("C14-S", "tree:unsupported", u)
+    if n_store < 2 or n_occ < 2:
+        ck.skip("C14-S", "tree:shape", "tree.rs does not have the slot-store shape this supplementary rule reads (%d stores, %d occupied-slot paths); collisions are decided by C14-W" % (n_store, n_occ))
+    if keyed:
+        ck.ok("C14-S", "tree:child-key", "children keyed by whole path parts")
+    # every expanded path is inserted: the function that iterates paths() must not truncate or filter it
+    n_iter = 0
+    for b in tree_fns + [bb for bb in m.facts["bodies"] if bb["def"].startswith("microscpi_macros::") and bb["kind"] in ("Fn", "AssocFn") and bb not in tree_fns and "::{" not in bb["def"]]:
+        src = hir.show(b["value"])
+        if "paths()" in src and "command.rs" not in (b["sp"][0] if b.get("sp") else ""):
+            n_iter += 1
+            bad = [w for w in (".take(", ".skip(", ".first()", ".last()", ".next()", ".nth(", ".step_by(", ".filter(", ".take_while(", ".skip_while(") if w in src]
+            ck.judge(not bad, "C14-S", "%s:all-paths" % b["def"].split("::")[-1], "iterates all of paths()", "not every expanded path is inserted: %s" % bad, hir.loc(b["value"]))
+    if n_iter == 0:
+        ck.skip("C14-S", "insert:paths-iteration", "no function iterating Command::paths() found; decided by C14-W")
+    # interface(): the result of the insertion is consumed (unwrap / expect / ? / match), never discarded
+    n = 0
+    for b in m.facts["bodies"]:
+        if b["kind"] not in ("Fn", "AssocFn") or b["def"].startswith("microscpi_macros::tree::"):
+            continue
+        root = b["value"]
+        pm = None
+        for x in hir.walk(root):
+            if x.get("k") in ("MethodCall", "Call") and hir.base_path(x.get("callee") or "") in result_fns:
+                if pm is None:
+                    pm = ctx.parent_map(root)
                 n += 1
-                # climb: closure body -> try_for_each(...) -> must be consumed
                 p = pm.get(id(x))
-                top = x
-                while p is not None and p.get("k") in ("Closure", "Block", "Try") or (p is not None and p.get("k") == "MethodCall" and p["name"] in ("try_for_each", "map", "collect", "and_then")):
-                    top = p
+                while p is not None and (p.get("k") in ("Closure", "Block", "Try") or (p.get("k") == "MethodCall" and p["name"] in ("try_for_each", "map", "collect", "and_then"))):
+                    if p.get("k") == "Try":
+                        break
+                    if p.get("k") == "Block":
+                        # statement position inside a block = discarded, unless it is the block's value
+                        if p.get("expr") is None or not any(id(y) == id(x) for y in hir.walk(p["expr"])):
+                            break
                     p = pm.get(id(p))
                 consumed = p is not None and ((p.get("k") == "MethodCall" and p["name"] in ("unwrap", "expect", "unwrap_or_else", "map_err")) or p.get("k") in ("Try", "Match", "If", "LetCond"))
-                ck.judge(consumed, "C14-S", "interface:insert-result#%d" % n, "result of tree.insert reaches %s" % (p.get("name") or p.get("k") if p else None),
-                         "result of tree.insert(..) is discarded (%s): a collision would be silently ignored" % (hir.show(p)[:160] if p else "statement"), hir.loc(x))
-        ck.floor("C14-S", "tree.insert call sites in interface()", n, 1)
+                ck.judge(consumed, "C14-S", "%s:insert-result#%d" % (b["def"].split("::")[-1], n), "result of the insertion reaches %s" % ((p.get("name") or p.get("k")) if p else None),
+                         "the result of the insertion is discarded in %s (%s): a collision would be silently ignored" % (b["def"].split("::")[-1], hir.show(p)[:160] if p else "statement"), hir.loc(x))
+    if n == 0:
+        ck.skip("C14-S", "interface:insert-call", "no call of a tree-insertion function outside tree.rs found; decided by C14-W")
